@@ -130,6 +130,8 @@ extern "C" void harness_resume()
     walk(wq.node, inwq, ok);  CHECK(ok, "wait queue is a well-formed circular list");
     CHECK(CURRENT == me && me->state == states::RUNNING, "the running thread stays current and RUNNING");
     CHECK(vc->standbyq.node == nullptr, "standbyq is drained");
+    CHECK(!vc->runq_lock.foreground_locked.load() && !vc->runq_lock.background_locked.load() && !vc->standbyq.lock.locked() && !wq.lock.locked(),
+          "run-queue, standbyq and wait-queue locks released");                                                            // (-fno-access-control)
     check_heap(vc);
     int moved = 0, expired_sleepers = 0, standby = 0; bool moved_wq = false, kept_wq = false;
     for (int i = 1; i <= NTH; i++) {
@@ -231,8 +233,12 @@ extern "C" NOINL void verif_switch(thread* from, thread* to)
     CURRENT = from; from->state = states::RUNNING;
     CHECK(from->idx == -1, "a thread that runs again is out of the sleep heap (idx == -1)"); from->idx = -1;
     CHECK(from->waitq == nullptr, "a thread that runs again is in no wait queue"); from->waitq = nullptr;
+#ifdef WAITQ
+    CHECK(WQ.v.node == nullptr && !WQ.v.lock.locked(), "the wait queue is empty again and unlocked"); WQ.v.node = nullptr; WQ.v.lock.unlock();
+#endif
     CHECK(vc->standbyq.node == nullptr, "standbyq drained before the thread runs again"); vc->standbyq.node = nullptr;
     CHECK(!from->lock.locked() && !OTHER->lock.locked() && !vc->standbyq.lock.locked(), "no scheduler lock is held across a switch");
+    CHECK(!vc->runq_lock.foreground_locked.load() && !vc->runq_lock.background_locked.load(), "run-queue lock released");   // (-fno-access-control)
     from->lock.unlock(); OTHER->lock.unlock(); vc->standbyq.lock.unlock(); vc->runq_lock.foreground_unlock();
 #ifndef WITH_SLEEPER
     CHECK(OTHER->state == states::READY, "the thread that yielded is READY"); OTHER->state = states::READY;
@@ -252,6 +258,9 @@ static void check_sleep(int r, uint64_t c_begin, uint64_t x, bool shutting)
     int e = errno;
     CHECK(r == 0 || r == -1, "thread_usleep returns 0 or -1");
     CHECK(ME->idx == -1 && ME->waitq == nullptr && ME->state == states::RUNNING, "after a sleep the thread is RUNNING, out of the heap");
+    uint64_t dl = c_begin > UINT64_MAX - x ? UINT64_MAX : c_begin + x, cap = c_begin > UINT64_MAX - 10000 ? UINT64_MAX : c_begin + 10000;
+    if (x != 0 && dl > c_begin)     // not already expired at the call: a real sleep
+        CHECK(ME->ts_wakeup == (shutting && cap < dl ? cap : dl), "the deadline put into the sleep heap is now + t, capped at now + 10ms when shutting down");
     if (r == 0) {
         CHECK(n_intr == 0, "thread_usleep returns 0 only if no interrupt was issued during the sleep");
         CHECK(photon::now - c_begin >= x || photon::now == UINT64_MAX, "thread_usleep returns 0 only after at least t has elapsed on the runtime clock");
@@ -277,7 +286,11 @@ static int do_sleep(bool& shutting, uint64_t& c_begin, uint64_t& x)
 #endif
     shutting = ME->is_shutting_down();
     begin_call();
+#ifdef WAITQ          // the internal variant used by mutex / condition_variable / semaphore: the sleeper is also linked into a wait queue
+    return thread_usleep(Timeout(x), &WQ.v);
+#else
     return thread_usleep(Timeout(x));
+#endif
 }
 
 extern "C" void harness_seq()
